@@ -7,12 +7,12 @@ import math
 import os
 import sys
 
-SCALARS = ("k", "k1", "k2", "k3", "k4")
+SCALARS = ("k", "k1", "k2", "k3", "k4", "g")
 
 
 def scalar_values(name):
-    k = 1.3 if "gamma" in name else 0.3
-    return {"k": k, "k1": 0.4, "k2": -0.7, "k3": 1.1, "k4": 0.6}
+    """k: a velocity / angle / factor / tolerance (|k| < 1), g: a Lorentz factor (> 1)"""
+    return {"k": 0.3, "k1": 0.4, "k2": -0.7, "k3": 1.1, "k4": 0.6, "g": 1.3}
 
 
 def _leaf(r):
